@@ -266,6 +266,109 @@ func (e *Engine) registerEnvIntrinsics(pkgPath string) {
 	// normalisation net/http.Redirect and html/template apply to a URL.
 	reg("vrtSameURL", func(x *Exec, fr *frame, a []Value) Value { return Eq(x.term(a[0]), x.term(a[1])) })
 
+	// ---- routing (C11): which handler serves a path, under which path a handler is registered
+	routerOf := func(x *Exec, v Value) *routerObj {
+		iv, _ := x.force(v).(*IfaceV)
+		if iv == nil || iv.T == nil {
+			panic(abortf("vrtRoute: nil handler"))
+		}
+		n, ok := iv.V.(*Native)
+		if !ok || n.Kind != "router" {
+			panic(abortf("vrtRoute: the provider's handler is not the mux router"))
+		}
+		return n.Data.(*routerObj)
+	}
+	handlerName := func(x *Exec, rt *routeObj) string {
+		v := rt.fn
+		if rt.handler != nil {
+			if iv, ok := x.force(rt.handler).(*IfaceV); ok && iv.T != nil {
+				v = iv.V
+			}
+		}
+		if f, ok := x.force(v).(*FuncV); ok {
+			if f.Fn != nil {
+				return f.Fn.String()
+			}
+			return f.Name
+		}
+		return "?"
+	}
+	reg("vrtRouteHandler", func(x *Exec, fr *frame, a []Value) Value {
+		r := routerOf(x, a[0])
+		path := x.term(a[1])
+		for _, rt := range r.routes {
+			if x.Branch(Eq(rt.path, path)) {
+				return StrC(handlerName(x, rt))
+			}
+		}
+		return StrC("")
+	})
+	reg("vrtRoutePathOf", func(x *Exec, fr *frame, a []Value) Value {
+		r := routerOf(x, a[0])
+		want := x.constStr(a[1], "handler name")
+		for _, rt := range r.routes {
+			if strings.Contains(handlerName(x, rt), want) {
+				return TupleV{rt.path, TrueT}
+			}
+		}
+		return TupleV{StrC(""), FalseT}
+	})
+
+	// ---- C14: payloads of symbolic length, bytes materialised by inflating readers
+	reg("vrtRepeat", func(x *Exec, fr *frame, a []Value) Value {
+		n := x.term(a[1])
+		x.freshSeq++
+		s := x.sym(fmt.Sprintf("repeat!%d", x.freshSeq), SStr)
+		// the length is kept as an integer term of its own (string solvers do not
+		// cope with lengths of 2^25 and more); stream contracts use it via lenOf
+		x.knownLen[s.S] = n
+		x.assume(Eq(Eq(s, StrC("")), Eq(n, IntC(0))))
+		x.setAttr(s, "undecodable") // padding is not a document
+		return s
+	})
+	reg("vrtMaterialisedWithin", func(x *Exec, fr *frame, a []Value) Value {
+		lim := x.term(a[0])
+		r := TrueT
+		for _, m := range x.materialised {
+			r = And(r, Le(m, lim))
+		}
+		return r
+	})
+	reg("vrtAllocStart", func(x *Exec, fr *frame, a []Value) Value { return nil })
+	reg("vrtMaterialisations", func(x *Exec, fr *frame, a []Value) Value { return IntC(int64(len(x.materialised))) })
+
+	// ---- C19: URLs built from components; request headers given explicitly
+	reg("vrtURL", func(x *Exec, fr *frame, a []Value) Value {
+		x.freshSeq++
+		u := x.sym(fmt.Sprintf("url!%d", x.freshSeq), SStr)
+		x.urlParts[u.S] = []*Term{x.term(a[0]), x.term(a[1]), x.term(a[2]), x.term(a[3]), x.term(a[4])}
+		// the text is not empty when any component is
+		x.assume(Implies(Eq(u, StrC("")), And(Eq(x.term(a[0]), StrC("")), Eq(x.term(a[1]), StrC("")), Eq(x.term(a[2]), StrC("")), Eq(x.term(a[3]), StrC("")), Eq(x.term(a[4]), StrC("")))))
+		return u
+	})
+	reg("vrtBadURL", func(x *Exec, fr *frame, a []Value) Value {
+		x.freshSeq++
+		u := x.sym(fmt.Sprintf("badurl!%d", x.freshSeq), SStr)
+		x.setAttr(u, "badurl")
+		x.assume(Not(Eq(u, StrC(""))))
+		return u
+	})
+	reg("vrtBadForwarded", func(x *Exec, fr *frame, a []Value) Value {
+		x.freshSeq++
+		u := x.sym(fmt.Sprintf("badforwarded!%d", x.freshSeq), SStr)
+		x.setAttr(u, "badforwarded")
+		return u
+	})
+	reg("vrtReqHeader", func(x *Exec, fr *frame, a []Value) Value {
+		ri := x.force(a[0]).(*Native).Data.(*reqInfo)
+		key := x.constStr(a[1], "header name")
+		if ri.explicitHdr == nil {
+			ri.explicitHdr = map[string][]Value{}
+		}
+		ri.explicitHdr[key] = x.sliceElems(a[2])
+		return nil
+	})
+
 	// ---- clock
 	reg("vrtIsClockReading", func(x *Exec, fr *frame, a []Value) Value {
 		t := x.term(a[0])
@@ -283,6 +386,14 @@ func (e *Engine) registerEnvIntrinsics(pkgPath string) {
 		r := FalseT
 		for _, c := range x.clocks {
 			r = Or(r, And(Implies(hasLo, Le(lo, c)), Implies(hasHi, Lt(c, hi))))
+		}
+		return r
+	})
+	reg("vrtAllClocksSatisfy", func(x *Exec, fr *frame, a []Value) Value {
+		lo, hasLo, hi, hasHi := x.term(a[0]), x.term(a[1]), x.term(a[2]), x.term(a[3])
+		r := TrueT
+		for _, c := range x.clocks {
+			r = And(r, Implies(hasLo, Le(lo, c)), Implies(hasHi, Lt(c, hi)))
 		}
 		return r
 	})
@@ -317,6 +428,7 @@ func (e *Engine) registerEnvIntrinsics(pkgPath string) {
 		id := x.sym(name+".keyid", SStr)
 		x.privKeys[c] = id
 		x.assume(Eq(Eq(UF("pubof", id), UF("pubkey", cert)), x.sym(name+".match", SBool)))
+		x.assume(Implies(x.sym(name+".cert.valid", SBool), Not(Eq(cert, StrC("")))))
 		return TupleV{&BytesV{T: cert}, &Pointer{Cell: c}}
 	})
 	reg("vrtIdPSigned", func(x *Exec, fr *frame, a []Value) Value {
